@@ -53,7 +53,7 @@ impl Property for C07 {
         "C07"
     }
     fn rule(&self) -> String {
-        format!("histories of 1..12 operations over a 4-file workspace: edit(file, one of {NVARIANTS} text variants: every include subset x {{clean, declaration renamed, includes moved below the class}} x {{syntax error, type error, include of a missing file}}) applied server-style (edited file becomes root) or API-style (root unchanged), root switches, and disk-only changes of a file (picked up when the sources are next collected); after EVERY step the long-lived AnalysisHost's full dump (diagnostics, per workspace file: symbols, folding, links, full-range hints, definition/references/hover at every identifier, completion at 9 offsets x 2 triggers; FileId -> path; hash-ordered lists sorted) must equal the dump of a fresh host given only the current texts. distinct = digest of history; non-trivial = >=2 edits, one changing an include set or the root, and the dump changed between two consecutive steps")
+        format!("histories of 1..12 operations over a 4-file workspace: edit(file, one of {NVARIANTS} text variants: every include subset x {{clean, declaration renamed, includes moved below the class}} x {{syntax error, type error, include of a missing file}}) applied server-style (edited file becomes root) or API-style (root unchanged), root switches, and disk-only changes of a file (picked up when the sources are next collected); after EVERY step the long-lived AnalysisHost's full dump (diagnostics, per workspace file: symbols, folding, links, full-range hints, definition/references/hover at every identifier, completion at 9 offsets x 2 triggers; FileId -> path; hash-ordered lists sorted) must equal the dump of a fresh host given only the current texts; family server-histories replays such histories (didOpen/didChange/didClose, 1..7 events) through the real server and compares its last published diagnostics and the documentSymbol answer of every open document with a fresh analysis of disk overlaid by the open buffers. distinct = digest of history; non-trivial = >=2 edits, one changing an include set or the root, and the dump changed between two consecutive steps")
     }
     fn assumptions(&self) -> Vec<String> {
         vec!["every edit is followed by set_root_file (the only way the API (re)collects include maps); the in-memory FileSystem is updated together with set_file_content".into()]
@@ -85,6 +85,18 @@ impl Property for C07 {
                     }
                 }
             }),
+            // the same histories through the real server: didOpen/didChange/didClose of documents whose
+            // disk texts are the initial variants; what the server publishes and answers must equal a
+            // fresh analysis of (disk overlaid by open buffers), rooted at the last touched document
+            Family::new("server-histories", ctx.tier.pick(16, 400), |_c, rng, emit| {
+                for _ in 0..12 {
+                    let n = 1 + rng.below(7);
+                    let ops: Vec<_> = (0..n).map(|_| json!([rng.weighted(&[6, 1]), rng.below(NFILES), rng.below(NVARIANTS)])).collect();
+                    if !emit(json!({"kind": "server-hist", "ops": ops})) {
+                        return;
+                    }
+                }
+            }),
             Family::new("random-histories", ctx.tier.pick(48, 1500), |_c, rng, emit| {
                 for _ in 0..40 {
                     let n = 1 + rng.below(12);
@@ -100,6 +112,9 @@ impl Property for C07 {
         let Some(ops) = case["ops"].as_array() else { return Verdict::Skip("malformed-case") };
         if case["kind"] == "sem-hist" {
             return sem_history(case, ops);
+        }
+        if case["kind"] == "server-hist" {
+            return server_history(case, ops);
         }
         let mut files = initial_files();
         let mut live = Workspace::new(&files, "f0.td");
@@ -272,4 +287,62 @@ fn sem_history(case: &Case, ops: &[serde_json::Value]) -> Verdict {
         prev = Some(d_live);
     }
     Verdict::pass(edits >= 2 && changed && nfiles >= 2)
+}
+
+fn server_history(case: &Case, ops: &[serde_json::Value]) -> Verdict {
+    use super::session::{compare_with_fresh, LspSession};
+    use std::collections::BTreeMap;
+    let Some(mut s) = LspSession::start() else { return Verdict::Skip("initialize-failed") };
+    let disk = initial_files();
+    let mut model: BTreeMap<String, String> = BTreeMap::new();
+    for (n, t) in &disk {
+        s.tw.write(n, t);
+        model.insert(n.clone(), t.clone());
+    }
+    let mut verdict = None;
+    let mut touches = 0;
+    let mut structural = false;
+    for (step, op) in ops.iter().enumerate() {
+        let (Some(kind), Some(f), Some(v)) = (op[0].as_u64(), op[1].as_u64(), op[2].as_u64()) else {
+            verdict = Some(Verdict::Skip("malformed-case"));
+            break;
+        };
+        let f = f as usize % NFILES;
+        let name = format!("f{f}.td");
+        if kind % 2 == 1 {
+            // close: the disk text is the truth again; observed at the next analysed step
+            if s.opened.contains(&name) {
+                s.close(&name);
+                model.insert(name.clone(), disk[f].1.clone());
+            }
+            continue;
+        }
+        let t = variant_text(f, v as usize % NVARIANTS);
+        if model[&name] != t && v % 8 != 0 {
+            structural = true;
+        }
+        model.insert(name.clone(), t.clone());
+        if !s.touch(&name, &t) {
+            verdict = Some(Verdict::Skip("not-idle"));
+            break;
+        }
+        touches += 1;
+        match compare_with_fresh(&mut s, &model, &name) {
+            Ok(()) => {}
+            Err((what, _)) if what.is_empty() => {
+                verdict = Some(Verdict::Skip("no-response"));
+                break;
+            }
+            Err((what, detail)) => {
+                verdict = Some(Verdict::Fail(Failure::new(
+                    "C07.server-differs-from-fresh",
+                    format!("C07.server-differs-from-fresh:{what}"),
+                    format!("server history {} step {step}: {detail}", case["ops"]),
+                )));
+                break;
+            }
+        }
+    }
+    s.finish();
+    verdict.unwrap_or(Verdict::pass(touches >= 2 && structural))
 }
